@@ -1001,19 +1001,19 @@ def check_z_index(case, rec):
 
 CLAUSES = [
     Clause("redraw_composite", check_composite, lambda: histories(any_top=False, explicit_clear=False),
-           budget={"quick": 600, "thorough": 6000}, min_per_shard=12,
+           budget={"quick": 1000, "thorough": 8000}, min_per_shard=12,
            floors={"style:kitty": 0.25, "graphics_on_screen": 0.25, "changed_while_stayed": 0.03, "ident:konsole": 0.03},
            doc="layout/pool/lifecycle histories whose top-level canvases are always CompositeCanvas"),
     Clause("redraw_any", check_composite, lambda: histories(any_top=True, explicit_clear=False),
-           budget={"quick": 300, "thorough": 3000}, min_per_shard=12,
+           budget={"quick": 400, "thorough": 4000}, min_per_shard=12,
            floors={"noncomposite": 0.2, "style:kitty": 0.2},
            doc="as redraw_composite, plus bare SolidFill / UrwidImage top-level widgets (non-composite canvases)"),
     Clause("clear_images", check_composite, lambda: histories(any_top=False, explicit_clear=True),
-           budget={"quick": 300, "thorough": 3000}, min_per_shard=12,
+           budget={"quick": 400, "thorough": 4000}, min_per_shard=12,
            floors={"explicit_clear": 0.2, "style:kitty": 0.2},
            doc="as redraw_composite, plus explicit clear_images()/clear_images(*widgets) and unchanged redraws"),
     Clause("lifecycle", check_composite, lambda: histories(any_top=False, explicit_clear=False, lifecycle=True),
-           budget={"quick": 200, "thorough": 2000}, min_per_shard=12,
+           budget={"quick": 300, "thorough": 3000}, min_per_shard=12,
            floors={"foreign": 0.15},
            doc="start/stop/clear heavy histories with foreign images seeded while the screen is stopped"),
     Clause("z_index", check_z_index, z_cases, budget={"quick": 300, "thorough": 5000},
